@@ -38,7 +38,8 @@ CONSTANTS Backend,      \* "bolt" | "badger"
           MetaAlways,   \* bulk writers always rewrite the metadata (the repaired code)
           PointMeta,    \* UpdateById rewrites the metadata too (the repaired code)
           Gs,           \* goroutines
-          IdSet, Vals   \* document ids, values of the field x
+          IdSet, Vals,  \* document ids, values of the field x
+          WithReads     \* the operation pool also holds the read operations Find and Count
 
 VARIABLES db,     \* committed state: [idx, size, docs (id -> value), ents (set of <<v, id>>)]
           log,    \* sequence of the key sets written by committed transactions
@@ -134,7 +135,18 @@ Effect(op, s) ==
                   new |-> [s EXCEPT !.idx = FALSE, !.ents = {}],
                   res |-> "ok"]
 
-IsWriter(op) == TRUE          \* every operation above opens an update transaction
+      \* reads: FindAll(x = a) and Count() (served from the metadata); they write nothing, so the
+      \* store never rejects them
+      [] op[1] = "Find" ->
+            LET a == op[2]
+                sel == Sel(s, a)
+                rd  == IF s.idx THEN {<<"E", a, i>> : i \in sel} \cup {<<"D", i>> : i \in sel} \cup PastRange(s, a)
+                       ELSE {<<"D", i>> : i \in Present(s)}
+            IN [reads |-> {<<"M">>} \cup rd, writes |-> {}, new |-> s, res |-> sel]
+      [] op[1] = "Count" ->
+            [reads |-> {<<"M">>}, writes |-> {}, new |-> s, res |-> <<"n", s.size>>]
+
+IsWriter(op) == op[1] \notin {"Find", "Count"}   \* the others open an update transaction
 
 \* apply a write set computed on a snapshot to the committed state: written keys take the
 \* values they have in the transaction's view (new), the others keep the committed ones
@@ -149,6 +161,7 @@ OpPool ==
     {<<"Insert", i, v>> : i \in IdSet, v \in Vals} \cup {<<"UpdateById", i, v>> : i \in IdSet, v \in Vals}
     \cup {<<"UpdateWhere", a, b>> : a, b \in Vals} \cup {<<"DeleteWhere", a>> : a \in Vals}
     \cup {<<"DeleteById", i>> : i \in IdSet} \cup {<<"CreateIndex">>, <<"DropIndex">>}
+    \cup (IF WithReads THEN {<<"Find", a>> : a \in Vals} \cup {<<"Count">>} ELSE {})
 
 \* initial contents: every assignment of values to ids, with or without the index
 StartDbs ==
@@ -161,11 +174,11 @@ Init == /\ db \in StartDbs /\ log = <<>> /\ bad = FALSE
         /\ progs \in [Gs -> OpPool]
         /\ db0 = db /\ clock = 0
 
-ActiveWriter == \E g \in Gs : tx[g].st = "run"
+ActiveWriter == \E g \in Gs : tx[g].st = "run" /\ IsWriter(progs[g])
 
 Start(g) ==
     /\ tx[g].st = "idle"
-    /\ Backend = "bolt" => ~ActiveWriter          \* bbolt: single writer
+    /\ (Backend = "bolt" /\ IsWriter(progs[g])) => ~ActiveWriter      \* bbolt: single writer
     /\ tx' = [tx EXCEPT ![g] = [st |-> "run", snap |-> db, start |-> Len(log), t0 |-> clock + 1, t1 |-> 0,
                                 res |-> "-", aborted |-> FALSE]]
     /\ clock' = clock + 1
